@@ -1184,6 +1184,9 @@ class DiscretizedSpaceElement(Tensor):
             except TypeError:
                 axis = (int(axis),)
 
+            # Negative axes count from the end, as in NumPy
+            axis = tuple(int(ax) + self.ndim if int(ax) < 0 else int(ax)
+                         for ax in axis)
             reduced_axes = [i for i in range(self.ndim) if i not in axis]
 
         # --- Evaluate ufunc --- #
